@@ -125,7 +125,7 @@ func createDeviceAuthorization(ctx context.Context, req *oidc.DeviceAuthorizatio
 		Interval:        int(config.PollInterval / time.Second),
 	}
 
-	verification.RawQuery = "user_code=" + userCode
+	verification.RawQuery = url.Values{"user_code": {userCode}}.Encode()
 	response.VerificationURIComplete = verification.String()
 	return response, nil
 }
